@@ -19,6 +19,14 @@ OPS = ["mul_u", "mul_f", "had", "integrate", "log_integral", "density", "margina
        "update", "cond_x", "set_y", "joint_c", "joint_p", "marg_c", "marg_p", "post_c", "post_p", "info_c", "info_p", "fslice"]
 
 
+def plain(p):
+    """update() is defined for float64 jax arrays (it writes through .at[] into the arrays it finds): no numpy / float32 inputs"""
+    p = dict(p)
+    for k in ("np_params", "f32_mu", "twice"):
+        p.pop(k, None)
+    return p
+
+
 def pre_check(workdir, tier):
     """regenerated syntactic theorems (harness/purity_extract.py, coq/schema/PurityThm.v): every `slice` method returns a
     freshly constructed object, and no product / evaluation / slice method stores into an operand"""
@@ -76,7 +84,7 @@ def gen_case(g, op, R, D):
         pos = list(range(R)); g.shuffle(pos); pos = pos[:k]
         if g.randint(0, 1):
             pos = [i - R if g.randint(0, 1) else i for i in pos]
-        d.update(p=lin.gen_pdfv(g, R, D, ctor="Sigma"), q=lin.gen_pdfv(g, k, D, ctor="Sigma"), idx=pos)
+        d.update(p=plain(lin.gen_pdfv(g, R, D, ctor="Sigma")), q=plain(lin.gen_pdfv(g, k, D, ctor="Sigma")), idx=pos)
     elif op == "fslice":
         d.update(f=C.gen_factor(g, g.choice(["general", "onerank", "linear", "constant"]), R, D))
     else:
@@ -120,12 +128,12 @@ def gen_descs(g, tier):
     for (R, idx) in [(1, [0]), (1, [-1]), (2, [1]), (3, [0, 2]), (1, [0, 0])]:
         for diag in (False, True):
             D = g.randint(1, 2)
-            out.append(C.J(dict(op="alias", idx=idx, xs=g.mat(2, D), p=lin.gen_pdfv(g, R, D, diag=diag, ctor="Sigma"),
-                                q=lin.gen_pdfv(g, 1, D, diag=diag, ctor="Sigma"))))
+            out.append(C.J(dict(op="alias", idx=idx, xs=g.mat(2, D), p=plain(lin.gen_pdfv(g, R, D, diag=diag, ctor="Sigma")),
+                                q=plain(lin.gen_pdfv(g, 1, D, diag=diag, ctor="Sigma")))))
     # update(idx, d): systematic address patterns -- gaps, descending, mixed negative, a full permutation, one component
     for (R, pos) in [(3, [0, 2]), (4, [3, 1]), (4, [-1, 0]), (3, [2, 0, 1]), (5, [4, 0, 2]), (3, [1]), (4, [1, 2]), (4, [-2, -4])]:
         d = gen_case(g, "update", R, g.randint(1, 2))
-        d.update(q=lin.gen_pdfv(g, len(pos), d["p"]["D"], ctor="Sigma"), idx=pos)
+        d.update(q=plain(lin.gen_pdfv(g, len(pos), d["p"]["D"], ctor="Sigma")), idx=pos)
         out.append(C.J(d))
     return out
 
